@@ -82,12 +82,12 @@ AfterFinalizer(e) == Settles(e) => Fin(e, AW(e))
 \* ... and it is a fixed point: the next reconcile of that actor (nothing happened in between) changes nothing
 Quiescent(e) == (IsCall(e) /\ e.sb /\ e.quiet) => ~e.applied
 
-\* fingerprints of the two mechanisms found by the model (spec header, D16 / D17): the reconcile took the
+\* fingerprints of the two mechanisms found by the model (spec header, D17 / D18): the reconcile took the
 \* "controller is running" branch (it did not start the controller itself) ...
 \* ... although the recorded type it read does not say what runs (the record was lost with a failed status update)
-D16(e) == IF ~e.seen.started /\ e.seen.type # WVer(e, AW(e)) THEN ".StaleRecord" ELSE ""
+D17(e) == IF ~e.seen.started /\ e.seen.type # WVer(e, AW(e)) THEN ".StaleRecord" ELSE ""
 \* ... and never started the watches (StartWatches had failed after Start)
-D17(e) == IF ~e.seen.started THEN ".RunningBranch" ELSE ""
+D18(e) == IF ~e.seen.started THEN ".RunningBranch" ELSE ""
 
 Viol(name, i) == PrintT("VIOL|" \o name \o "|" \o ToString(i) \o "|" \o Trace[i].scenario)
 Check(i) ==
@@ -95,9 +95,9 @@ Check(i) ==
   /\ (e.ev # "hung" \/ Viol("NoDeadlock", i))
   /\ (StartOnlyEstablished(e) \/ Viol("StartOnlyEstablished", i))
   /\ (CondRunning(e) \/ Viol("CondTruth.Running", i))
-  /\ (CondWatches(e) \/ Viol("CondTruth.Watches" \o D17(e), i))
-  /\ (CondVersion(e) \/ Viol("CondTruth.Version" \o D16(e), i))
-  /\ (CondTypeRef(e) \/ Viol("CondTruth.TypeRef" \o D16(e), i))
+  /\ (CondWatches(e) \/ Viol("CondTruth.Watches" \o D18(e), i))
+  /\ (CondVersion(e) \/ Viol("CondTruth.Version" \o D17(e), i))
+  /\ (CondTypeRef(e) \/ Viol("CondTruth.TypeRef" \o D17(e), i))
   /\ (FaithfulWrite(e) \/ Viol("Faithful.Write", i))
   /\ (OwnCrd(e) \/ Viol("Faithful.OwnCrd", i))
   /\ (ForeignStops(e) \/ Viol("Foreign.Stops", i))
@@ -106,9 +106,9 @@ Check(i) ==
   /\ (DeleteOnlyOnXrdDeletion(e) \/ Viol("DeleteOnlyOnXrdDeletion", i))
   /\ (AfterCrd(e) \/ Viol("AfterReconcile.Crd", i))
   /\ (AfterRunning(e) \/ Viol("AfterReconcile.Running", i))
-  /\ (AfterWatches(e) \/ Viol("AfterReconcile.Watches" \o D17(e), i))
-  /\ (AfterVersion(e) \/ Viol("AfterReconcile.Version" \o D16(e), i))
-  /\ (AfterTypeRef(e) \/ Viol("AfterReconcile.TypeRef" \o D16(e), i))
+  /\ (AfterWatches(e) \/ Viol("AfterReconcile.Watches" \o D18(e), i))
+  /\ (AfterVersion(e) \/ Viol("AfterReconcile.Version" \o D17(e), i))
+  /\ (AfterTypeRef(e) \/ Viol("AfterReconcile.TypeRef" \o D17(e), i))
   /\ (AfterCond(e) \/ Viol("AfterReconcile.Cond", i))
   /\ (AfterFinalizer(e) \/ Viol("AfterReconcile.Finalizer", i))
   /\ (Quiescent(e) \/ Viol("Quiescent", i))
